@@ -153,21 +153,30 @@ class Tracer:
             return ("action",)
         return ("other", type(el).__name__)
 
+    VBASE = 100000
+
     def observe(self, fs, pos):
+        """Records what stands at `pos` of the flow of instance fs NOW and returns the virtual
+        position used in the Coq case: pos + VBASE * (version of the element at that position).
+        The event name of `match $ref.Finished()` depends on a variable; when the same instance
+        comes back to the same position with another value the element gets a new version."""
         uid = fs.__dict__.get("uid")
-        if uid is None or fs.flow_id not in self.state.flow_configs:
-            return
+        if uid is None or not isinstance(pos, int) or isinstance(pos, bool) or pos < 0 or pos >= self.VBASE \
+                or fs.__dict__.get("flow_id") not in self.state.flow_configs:
+            return pos
         e = self.elem_at(fs, pos)
-        k = (uid, pos)
-        old = self.obs.get(k)
-        if old is None:
-            self.obs[k] = e
-        elif old[:2] != e[:2]:
-            self.obs_conflicts.append((uid, pos, old, e))
+        vs = self.obs.setdefault((uid, pos), [])
+        for i, old in enumerate(vs):
+            if old[:2] == e[:2]:
+                return pos + self.VBASE * i
+        vs.append(e)
+        if len(vs) > 1:
+            self.obs_conflicts.append((uid, pos, vs[-2], e))
+        return pos + self.VBASE * (len(vs) - 1)
 
     def head_descr(self, head, fs):
         d = head.__dict__
-        return (d.get("uid"), d.get("_position"), getattr(d.get("_status"), "value", None),
+        return (d.get("uid"), self.observe(fs, d.get("_position")), getattr(d.get("_status"), "value", None),
                 self.cb_ok(d.get("position_changed_callback"), fs), self.cb_ok(d.get("status_changed_callback"), fs))
 
     def begin_segment(self):
@@ -446,7 +455,7 @@ def install():
                 if not isinstance(value, int) or isinstance(value, bool):
                     TR.emit(("UNKNOWN", "position is not an int"))
                     return
-                TR.emit(("SET", fs.uid, head.uid, "position", value, fire, ctx["raw"]))
+                TR.emit(("SET", fs.uid, head.uid, "position", TR.observe(fs, value), fire, ctx["raw"]))
             else:
                 TR.emit(("SET", fs.uid, head.uid, "status", getattr(value, "value", None), fire, ctx["raw"]))
         else:
@@ -455,8 +464,7 @@ def install():
             if fs is None:
                 TR.emit(("UNKNOWN", "callback of a head whose instance is not in the state fired"))
                 return
-            TR.observe(fs, head.__dict__.get("_position"))
-            TR.emit(("SET_DETACHED", fs.uid, head.uid, head.__dict__.get("_position"),
+            TR.emit(("SET_DETACHED", fs.uid, head.uid, TR.observe(fs, head.__dict__.get("_position")),
                      head.__dict__.get("_status").value, ctx["raised"]))
 
     fl.FlowHead.position = wrap_setter("position")
@@ -497,7 +505,7 @@ def install():
             elif att:
                 TR.emit(("HC", flow_state.uid, head.uid, ctx["raised"]))
             else:
-                TR.emit(("HC_DETACHED", flow_state.uid, head.uid, head.__dict__.get("_position"),
+                TR.emit(("HC_DETACHED", flow_state.uid, head.uid, TR.observe(flow_state, head.__dict__.get("_position")),
                          head.__dict__.get("_status").value, ctx["raised"],
                          TR.cb_ok(head.__dict__.get("position_changed_callback"), flow_state),
                          TR.cb_ok(head.__dict__.get("status_changed_callback"), flow_state)))
@@ -563,7 +571,6 @@ def snapshot(state):
                 problems.append(f"head key/uid mismatch in {uid}")
             if not (d[3] and d[4]):
                 problems.append(f"head {d[0]} of {uid} has no (or a foreign) position/status callback")
-            TR.observe(fs, d[1])
             heads.append([d[0], d[1], d[2]])
         if fs.uid != uid:
             problems.append(f"instance key/uid mismatch {uid}")
@@ -842,7 +849,7 @@ class Interner:
 
 
 def _pos(p):
-    if not isinstance(p, int) or isinstance(p, bool) or p < 0 or p > 10**6:
+    if not isinstance(p, int) or isinstance(p, bool) or p < 0 or p > 10**8:
         raise Unsupported(f"position {p!r}")
     return str(p)
 
@@ -920,9 +927,12 @@ def coq_table(obs, I, used):
     """Program-table rows for the (instance, position) pairs the case mentions."""
     rows = {}
     for (uid, pos) in sorted(used, key=lambda x: (str(x[0]), x[1])):
-        e = obs.get((uid, pos))
-        if e is None:
+        vs = obs.get((uid, pos % Tracer.VBASE))
+        if vs is None or pos // Tracer.VBASE >= len(vs):
+            if pos >= Tracer.VBASE:
+                raise Unsupported(f"position {pos} of {uid} was never observed")
             raise Unsupported(f"position {pos} of {uid} was never observed")
+        e = vs[pos // Tracer.VBASE]
         if e[0] == "end":
             continue
         if e[0] == "match":
@@ -962,7 +972,7 @@ def segment_term(seg):
     """seg = {"before","ops","after","obs"}; returns (coq term, canonical hash)."""
     I = Interner()
     before, ops, after = seg["before"], seg["ops"], seg["after"]
-    obs = {(k[0], k[1]): tuple(v) for k, v in seg["obs"]}
+    obs = {(k[0], k[1]): [tuple(e) for e in v] for k, v in seg["obs"]}
     s0 = coq_state(before, I)
     cops = [coq_op(o, I) for o in ops]
     s1 = coq_state(after, I)
@@ -1002,7 +1012,7 @@ def aseg_term(before, aops, after):
 
 def snapshot_term(sn, obs_list):
     I = Interner()
-    obs = {(k[0], k[1]): tuple(v) for k, v in obs_list}
+    obs = {(k[0], k[1]): [tuple(e) for e in v] for k, v in obs_list}
     body = coq_snapshot(sn, I)
     used = {(it["uid"], h[1]) for it in sn["insts"] for h in it["heads"]}
     tbl = coq_table(obs, I, used)
@@ -1233,6 +1243,118 @@ def shared_action_programs(rng, n):
         out.append({"src": src, "alphabet": alpha})
     return out
 
+
+def reference_programs(rng, n):
+    """Family: the event name of a match statement depends on a variable.  Helper flows take a
+    reference parameter and are started several times with references to actions / flows of
+    DIFFERENT types; flows come back to the same match statement with another value."""
+    acts = ['UtteranceBotAction(script="u")', 'GestureBotAction(gesture="g")', 'TimerBotAction(timer_name="t", duration=1)',
+            'UtteranceBotAction(script="v")']
+    watchers = [
+        ["flow watch $ref", "  match $ref.Finished()"],
+        ["flow watch $ref", "  match $ref.Started()", "  match $ref.Finished()"],
+        ["flow watch $ref", "  match $ref.Finished() or E1()", "  send O1()"],
+        ["flow watch $ref", "  when $ref.Finished()", "    send O1()", "  or when E1()", "    send O2()"],
+        ["flow watch $ref", "  match E1()", "  match $ref.Finished()"],
+    ]
+    out, seen, tries = [], set(), 0
+    while len(out) < n and tries < n * 20:
+        tries += 1
+        kind = rng.choice(["watch", "watch", "watch", "loop", "flowref", "event"])
+        text = []
+        if kind == "watch":
+            k = rng.choice([2, 2, 3])
+            chosen = rng.sample(acts, k)
+            text += rng.choice(watchers) + ["", "flow main"]
+            for i, a in enumerate(chosen):
+                text.append(f"  start {a} as $a{i}")
+            order = list(range(k))
+            rng.shuffle(order)
+            for i in order:
+                text.append(f"  {rng.choice(['start', 'start', 'activate'])} watch $a{i}" + (f" as $w{i}" if True else ""))
+            text[-k:] = [l if l.strip().startswith("start") else l.split(" as ")[0] for l in text[-k:]]
+            j = rng.choice(order)
+            if text[-k + order.index(j)].strip().startswith("start"):
+                text.append(f"  match $w{j}.Finished()")
+                text.append("  send O3()")
+            text.append("  match Never()")
+        elif kind == "loop":
+            a, b = rng.sample(acts, 2)
+            text += ["flow main", "  $i = 0", "  while $i < 3", "    if $i == 1", f"      start {a} as $r", "    else",
+                     f"      start {b} as $r", "    $i = $i + 1", "    match $r.Finished()", "  match Never()"]
+        elif kind == "flowref":
+            a = rng.choice(acts)
+            text += rng.choice(watchers) + ["", "flow fx", "  match E2()", "", "flow main", f"  start {a} as $a0", "  start fx as $f0"]
+            lines = ["  start watch $a0", "  start watch $f0"]
+            rng.shuffle(lines)
+            text += lines + ["  match Never()"]
+        else:
+            text += ["flow main", "  match E1() as $e", "  send O1()", "  match E2() as $e", "  match $e.Never() or E3()",
+                     "  match Never()"] if rng.random() < 0.5 else \
+                    ["flow w $ref", "  match $ref.Finished()", "", "flow main", f"  start {rng.choice(acts)} as $r", "  start w $r",
+                     f"  start {rng.choice(acts)} as $r", "  start w $r", "  match Never()"]
+        src = "\n".join(text) + "\n"
+        if src in seen:
+            continue
+        seen.add(src)
+        alpha = [["fin", 0], ["fin", 1], ["started", 0], ["ev", "E1", {}], ["ev", "E2", {}], ["fin", 2]]
+        out.append({"src": src, "alphabet": alpha})
+    return out
+
+
+def error_programs(rng, n):
+    """Family: statements that raise while they are executed (an action event that cannot be
+    created, unknown variables, arithmetic errors, invalid priority) at every kind of position:
+    as the only actionable head of a round, next to other heads, inside groups and scopes, in
+    a child flow somebody waits for, in main."""
+    errs = [
+        ["$t = None", 'start UtteranceBotAction(script=$t)'],
+        ["$t = 3", 'await UtteranceBotAction(script=$t)'],
+        ["$t = None", 'start GestureBotAction(gesture=$t) as $g', "match $g.Finished()"],
+        ['start UtteranceBotAction(script=$undefined_var)'],
+        ["$y = 1 / 0"],
+        ["$y = $nope + 1"],
+        ["match $nope.Finished()"],
+        ["send $nope.Stop()"],
+        ["priority 7"],
+        ["$t = None", "send O1(x=$t)", 'await UtteranceBotAction(script=$t)'],
+    ]
+    shapes = ["child-waited", "child-plain", "main", "when", "group", "two-heads", "activated"]
+    out, seen, tries = [], set(), 0
+    while len(out) < n and tries < n * 20:
+        tries += 1
+        e = rng.choice(errs)
+        shape = rng.choice(shapes)
+        trig = rng.choice(["match E1()", 'match UtteranceUserAction.Finished(final_transcript="hi")'])
+        pre = rng.choice([[], ["send O2()"], ['start UtteranceBotAction(script="ok") as $ok']])
+        body = [trig] + pre + e + ["match E3()"]
+        ind = lambda ls, k=1: ["  " * k + l for l in ls]
+        if shape == "child-waited":
+            text = ["flow a"] + ind(body) + ["", "flow main", "  start a as $ref", "  match $ref.Failed() or $ref.Finished()",
+                                             '  start UtteranceBotAction(script="after")', "  match Never()"]
+        elif shape == "child-plain":
+            text = ["flow a"] + ind(body) + ["", "flow main", "  start a", "  match E2()", "  send O3()", "  match Never()"]
+        elif shape == "main":
+            text = ["flow main"] + ind(body) + ["  match Never()"]
+        elif shape == "when":
+            text = ["flow a"] + ind(["match E1()", "when E2()"]) + ind(e, 2) + ind(["or when E3()"]) + ind(["send O1()"], 2) + \
+                   ["  match E3()", "", "flow main", "  await a", "  send O3()", "  match Never()"]
+        elif shape == "group":
+            text = ["flow a"] + ind(body) + ["", "flow b", "  match E1()", "  match E2()", "", "flow main",
+                                             f"  await a {rng.choice(['or', 'and'])} b", "  send O3()", "  match Never()"]
+        elif shape == "two-heads":
+            text = ["flow a"] + ind(body) + ["", "flow b", "  " + trig, '  start UtteranceBotAction(script="b")', "  match E2()", "",
+                                             "flow main", "  start a", "  start b", "  match Never()"]
+        else:
+            text = ["flow a"] + ind(body) + ["", "flow main", "  activate a", "  match Never()"]
+        src = "\n".join(text) + "\n"
+        if src in seen:
+            continue
+        seen.add(src)
+        alpha = [["ev", "E1", {}], ["user", "hi"], ["ev", "E2", {}], ["ev", "E3", {}], ["fin", 0]]
+        out.append({"src": src, "alphabet": alpha})
+    return out
+
 def library_programs():
     """Shipped Colang 2 library flows (each file that parses offline) with small drivers."""
     lib = os.path.join(C.REPO, "nemoguardrails", "colang", "v2_x", "library")
@@ -1436,7 +1558,7 @@ class Explorer:
         for p in after["problems"]:
             self.sink["snapshot_problems"].append({"what": p, **replay})
         # segment for the Coq replay
-        seg = {"before": before, "ops": ops, "after": after, "obs": [[list(k), list(v)] for k, v in TR.obs.items()]}
+        seg = {"before": before, "ops": ops, "after": after, "obs": [[list(k), [list(e) for e in v]] for k, v in TR.obs.items()]}
         try:
             term, h = segment_term(seg)
             if h not in self.sink["seg_seen"]:
@@ -1674,7 +1796,7 @@ def worker_main(jobfile, outfile):
 
 def make_programs(tier, seed):
     rng = random.Random(seed * 1000003 + 9)
-    n_gen = 200 if tier == "quick" else 800
+    n_gen = 170 if tier == "quick" else 700
     progs = []
     modes = [None, None, None, "aging", "roundtrip"]
     seen = set()
@@ -1693,6 +1815,14 @@ def make_programs(tier, seed):
     fam_modes = ["aging", "aging", None, "roundtrip"]
     for i, fp in enumerate(shared_action_programs(random.Random(rng.getrandbits(64)), n_fam)):
         progs.append({"id": f"s{i}", "src": fp["src"], "alphabet": fp["alphabet"], "mode": fam_modes[i % len(fam_modes)]})
+    n_ref = 28 if tier == "quick" else 120
+    ref_modes = [None, "roundtrip", None, "aging"]
+    for i, fp in enumerate(reference_programs(random.Random(rng.getrandbits(64)), n_ref)):
+        progs.append({"id": f"r{i}", "src": fp["src"], "alphabet": fp["alphabet"], "mode": ref_modes[i % len(ref_modes)]})
+    n_err = 32 if tier == "quick" else 140
+    err_modes = [None, None, "aging", "roundtrip"]
+    for i, fp in enumerate(error_programs(random.Random(rng.getrandbits(64)), n_err)):
+        progs.append({"id": f"e{i}", "src": fp["src"], "alphabet": fp["alphabet"], "mode": err_modes[i % len(err_modes)]})
     libs = []
     for lp in library_programs():
         if lp.get("src") is None:
@@ -1860,9 +1990,6 @@ def run(tier, seed, replay=None):
     for s in snapprob[:5]:
         out.findings.append(C.Finding("head-without-own-callbacks", s["what"],
                                       {"src": s["src"], "history": s["history"], "mode": s.get("mode")}))
-    for d_ in drift[:5]:
-        out.notes.append(f"event-name of a parked match changed within one run: {d_['instance']}@{d_['pos']} {d_['first']} -> {d_['then']}")
-
     # ---- trace inclusion, inside Coq
     seg_list = list(segs.values())
     snap_list = list(snaps.values())
@@ -1954,6 +2081,7 @@ def run(tier, seed, replay=None):
         "crashes(C10)": crashes[:5],
         "observation_fork_table_entries_pointing_to_deleted_heads": agg["obs_fork_table_dangling"],
         "explore_s": explore_s,
+        "positions_revisited_with_another_event_name(sampled)": len(drift),
     })
     out.assumptions += [
         "the theorems speak about V2.Index; the real interpreter is tied to it by trace inclusion on the explored runs only "
